@@ -485,7 +485,7 @@ def match_known(known, pid, v):
     return None
 
 
-def run_pipeline(res, binary, name, gen_lines=None, vec_path=None, nshards=8, validate=True, min_events=1500):
+def run_pipeline(res, binary, name, gen_lines=None, vec_path=None, nshards=8, validate=True, min_events=1500, post=None):
     """Execute a batch of events against the crate and validate the recording with the trace spec.
     gen_lines: iterable of event dicts (impl -> spec direction).  vec_path: ndjson of TLC-emitted vectors
     (spec -> impl direction; compared natively through "x", and also trace-validated when validate)."""
@@ -511,6 +511,8 @@ def run_pipeline(res, binary, name, gen_lines=None, vec_path=None, nshards=8, va
                 e = json.loads(l)
                 if e.get("m") == 0:
                     res.violation("vector-mismatch", strip(e), dict(expected=e.get("x")))
+    if post is not None:
+        post(outp)
     if validate:
         tr = run_trace(outp, nshards=nshards, min_events=min_events)
         if vec_path is None:
